@@ -23,7 +23,7 @@ TECHNIQUE = ("exhaustive fault enumeration over the bounded C08 program space: e
 RULE = ("one case = one base program with all its faulted variants; state = one faulted program; ill-formed (per the model): "
         "some rank must raise a documented diagnostic (DistributedPartitionVerificationError family, "
         "PartitionInducedCycleError, CycleError, the self-send NotImplementedError) -- all ranks returning a partition is a "
-        "violation, and so is a crash that is not a diagnostic (KeyError, bare assert); well-formed (unfaulted programs and "
+        "violation, and so is a crash that is not a diagnostic (KeyError, bare assert); a missing counterpart is diagnosed on the rank that lacks it, a pure cycle on every rank, and the diagnostic names a defect the program has; well-formed (unfaulted programs and "
         "fault pairs that cancel): every rank returns, and every schedule terminates with the reference values")
 ASSUMPTIONS = [
     "fault alphabet as listed; a duplicate that staples the *same* send object twice is one send by value semantics: "
@@ -148,6 +148,15 @@ def run_case(case):  # noqa: C901
                     viol.append({"sig": {"kind": "diagnostic-names-a-defect-the-program-does-not-have", "claimed": claimed, "defects": defects},
                                  "msg": f"{where}: rank {r} raises {type(e).__name__}: {str(e)[:200]}"})
                     break
+            # an operation without its counterpart is diagnosed on the rank that lacks the counterpart (not only by the
+            # root's global check in the verifier)
+            if set(defects) <= {"missing-send", "missing-recv"} and not lenient and diag:
+                expected = distfault.lacking_ranks(fp)
+                got = {r for r, e in diag.items() if type(e).__name__ in ("MissingSendError", "MissingRecvError")}
+                if not expected <= got:
+                    viol.append({"sig": {"kind": "missing-operation-not-diagnosed-on-the-rank-that-lacks-it", "defects": defects},
+                                 "msg": f"{where}: ranks lacking an operation {sorted(expected)}, ranks raising Missing*Error {sorted(got)}, "
+                                        f"status { {r: (s[0], type(s[1]).__name__ if s[0] == 'exc' else '') for r, s in status.items()} }"})
             # a dependency cycle is found by the root and the exception is broadcast: every rank raises it
             if defects == ["cycle"] and not lenient and diag and len(raised) != R:
                 viol.append({"sig": {"kind": "cycle-diagnosed-on-some-ranks-only"},
